@@ -35,7 +35,7 @@ def gen(seed, tier):
         via = rng.choice(["queued", "queued", "adopt-driver", "adopt-payload", "service-pre", "service-late-driver", "service-late-payload"])
         step = ["return", kind[4:]] if kind.startswith("ret:") else ["raise", kind]
         pid = "f%d" % i
-        spec = {"id": pid, "flavour": fl, "steps": [["sleep", t], step] if t > 0 else ([["spin", 1], step] if rng.random() < 0.3 else [step]), "fails": True}
+        spec = {"id": pid, "flavour": fl, "steps": [["sleep", t], step] if t > 0 else ([["spin", 1], step] if rng.random() < 0.3 else [step]), "fails": True, "trigger": True}
         if rng.random() < 0.3:
             spec["cleanup_sync"] = rng.randint(1, 3)
         if via == "queued":
